@@ -65,6 +65,25 @@ def cellToFace (shape : List Nat) (mode : AvgMode) (q : Nat → Nat → Rat) (f 
   | .arithmetic => (1 / 2 : Rat) * (x + y)
   | .harmonic => hmean2 x y
 
+/-- how `cell_to_face_average` reads its argument: a scalar field (`ndim == dim`, or a trailing axis of length 1), a
+vector field (trailing axis `dim`: component `a` is used for faces of axis `a`) or a tensor field (trailing axes
+`dim × dim`: the diagonal entry `a,a` is used) -/
+inductive QKind | scalar | vector | tensor
+  deriving DecidableEq, Repr
+
+/-- the flat component array the code builds: `cell_qty.ravel("F")`, `cell_qty[..., a].ravel("F")`,
+`cell_qty[..., a, a].ravel("F")`.  `arr` is the cell quantity with the cell index flattened in Fortran order and the
+trailing (component) axes in C order: scalar `arr c`, vector `arr (c·dim + i)`, tensor `arr ((c·dim + i)·dim + j)`. -/
+def selectComp (dim : Nat) (kind : QKind) (arr : Nat → Rat) (a c : Nat) : Rat :=
+  match kind with
+  | .scalar => arr c
+  | .vector => arr (c * dim + a)
+  | .tensor => arr ((c * dim + a) * dim + a)
+
+/-- `cell_to_face_average(grid, cell_qty, mode)[f]` on the full (scalar / vector / tensor) cell array -/
+def cellToFaceQ (shape : List Nat) (mode : AvgMode) (kind : QKind) (arr : Nat → Rat) (f : Nat) : Rat :=
+  cellToFace shape mode (selectComp shape.length kind arr) f
+
 /-! ### tangential reconstruction (`FVTangentialFaceReconstruction`, `FVFullFaceReconstruction`) -/
 
 /-- `np.delete(range(dim), a)[i]` -/
